@@ -24,3 +24,13 @@ claim('C06', 'interprocedural exception-escape analysis with handler filtering a
       'readexactly(L), one task with (T, whole buffer)), byte-echo pairing in read_tl_num_from_stream and equality of its width '
       'table with parse_tl_num. Does not execute packets; "unrelated Interests unaffected" is covered only through C03 bookkeeping.',
       'user callbacks and tabled library calls do not raise; asserts are invariants; exception hierarchy table; CancelledError legitimate')
+
+claim('C03', 'typestate/pairing over the CFG (acquire-release), exception-escape sets, 16-row decision table by abstract interpretation of the matching loop, loop-shape and provenance checks',
+      'For both front-ends decides the bookkeeping structure behind exactly-once completion: every completion of a pending future is '
+      'done()-guarded (no suspension in between); every exit of _wait_for_data through the time-out/cancel handlers first removes '
+      'the entry, deleting the trie node only under an identity test; its escape set is within the 4 documented exceptions; '
+      'time-out->InterestTimeout, cancel->InterestCanceled; InterestTreeNode.satisfy realises the matching rule on all 16 '
+      'valuations and v1==v2; no early exit in the prefix walk / entry loop / nack loop; node deleted iff satisfy() reports empty; '
+      'express registers before sending and waits on the same future/node/key; timeout()/cancel()/_clean_up shapes. '
+      'Does not decide deadline arithmetic, event-loop fairness or arrival order (timing).',
+      'asyncio.wait_for / Future contract; pygtrie prefixes(); user validators do not raise')
